@@ -3,6 +3,8 @@ import DhcpProofs.Lemmas.Lease
 import DhcpProofs.Lemmas.Lease6
 import DhcpProofs.Props.C15
 import DhcpProofs.Props.C16
+import DhcpProofs.Props.C10
+import DhcpProofs.Lemmas.ClientRefine
 /-
   C13 — lease acquisition follows the exchange rules.  Property theorems only;
   helper lemmas live in DhcpProofs/Lemmas/Lease.lean and Lease6.lean.
@@ -13,7 +15,9 @@ import DhcpProofs.Props.C16
   reach the stream: that is C10), every offer / lease / advertise, every
   transaction id and every list of user modifiers.  `stream` is what the
   routed channel delivers to the call (see Dhcp/Client/Lease.lean for the
-  abstraction and why C10/C11/C12 justify it).
+  abstraction; the last section of this file, "The abstract call IS the timed
+  call", proves that C11/C12's timed machine run on the routed stream returns
+  exactly this call's answer, and says precisely what is not covered).
 
   `Completes offer p` is the test of the property text: message type ACK or
   NAK and a server identifier `Equal` (net.IP.Equal) to the offer's.
@@ -698,4 +702,395 @@ example : (renewPkt [9, 9, 9, 9] ⟨exOffer, ackFrom [10, 0, 0, 1]⟩ []).ciaddr
     releaseDestIP ⟨exOffer, ackFrom [10, 0, 0, 1]⟩ = some [10, 0, 0, 1] ∧
     (releasePkt [9, 9, 9, 9] ⟨exOffer, ackFrom [10, 0, 0, 1]⟩ []).ciaddr = some [10, 0, 0, 50] := by decide
 
+/-! ## The abstract call IS the timed call (refinement)
+
+Everything above is about `sendAndRead stream match = stream.find? match`.  This
+section proves that the timed machine of ONE `SendAndRead` call
+(`Dhcp.Client.Timed.runObs`, the subject of C11/C12) run on a routed stream
+returns exactly that — so that C13's results hold of the exchanges run on the
+timed machine (`requestTimed` &c., Dhcp/Client/Refine.lean), not only of the
+abstraction — and restates C10's "first acceptable in routing order" of the
+interleaving model as `List.find?`.
+
+Vocabulary (Dhcp/Client/Refine.lean): `arr : List (Int × α)` is the routed
+stream with the instant (from the start of the call) at which the caller's
+`select` receives each packet; `obsOf m fl arr` its observation sequence
+(`acc`/`rej` by the matcher `m`, tag = position, quiescence flag `fl i`);
+`streamOf arr` the packets; `answer arr ret` reads `.resp i` back as packet
+number `i`; `Ordered arr`: instants ≥ 0 and non-decreasing; `InBudget T n arr`:
+every instant strictly before `callBudget T n = T·(2^n − 1)` (no condition when
+`n < 0`); `timedCall T n m arr H = answer arr (runObs T n (obsOf m quiescent arr) H).ret`. -/
+
+section Refinement
+open Dhcp.Client.Refine Dhcp.Client.Timed
+
+/-- **C13 (the call refines the timed machine).** Timeout `T > 0`, ANY retry
+count `n` (`n ≥ 1`, `n = 0`, or the retry-for-ever `n < 0`), any matcher, a
+routed stream in time order whose arrivals all lie strictly before the budget,
+ANY quiescence flags (every arrival may or may not race with a per-try
+deadline), any horizon:
+(1) the packet the timed machine hands back is `find?` of the stream — the
+abstract call;
+(2) when `find?` is `some p` the machine returns `.resp i` AT `p`'s arrival
+instant, `i` the position of `p`, everything before position `i` rejected;
+(3) when `find?` is `none` the machine returns the no-response error at the
+budget after exactly `n` transmissions at `T·(2^k − 1)` (`n ≥ 0`), and is
+still running at every horizon (`n < 0`). -/
+theorem C13_call_refines_timed {α : Type} (T n : Int) (m : α → Bool) (fl : Nat → Bool) (arr : List (Int × α))
+    (H : Int) (hT : 0 < T) (ho : Ordered arr) (hb : InBudget T n arr) :
+    answer arr (runObs T n (obsOf m fl arr) H).ret = (streamOf arr).find? m ∧
+    (∀ p, (streamOf arr).find? m = some p →
+      ∃ i t, arr[i]? = some (t, p) ∧ (∀ j q, j < i → arr[j]? = some q → m q.2 = false) ∧
+        (runObs T n (obsOf m fl arr) H).ret = some (t, .resp i)) ∧
+    ((streamOf arr).find? m = none →
+      (0 ≤ n → callBudget T n ≤ H →
+        runObs T n (obsOf m fl arr) H =
+          ⟨(List.range n.toNat).map (fun k => T * (2 ^ k - 1)), some (callBudget T n, .noResp)⟩) ∧
+      (n < 0 → (∀ a ∈ arr, a.1 ≤ H) → 0 ≤ H → (runObs T n (obsOf m fl arr) H).ret = none)) := by
+  refine ⟨answer_refines hT m fl arr H ho hb, fun p hf => ?_, fun hf => ?_⟩
+  · obtain ⟨i, t, hi, _, hpre, hrun⟩ := refines_some (n := n) hT m fl arr ho p hf
+    refine ⟨i, t, hi, hpre, ?_⟩
+    have := hrun [] H (by
+      by_cases hn : n < 0
+      · exact Or.inl hn
+      · exact Or.inr (hb (by omega) (t, p) (List.mem_of_getElem? hi)))
+    simpa using this
+  · obtain ⟨h1, h2, _⟩ := refines_none (n := n) hT m fl arr hf H
+    exact ⟨h1, h2⟩
+
+/-- **C13 (the abstract calls of the lease model are timed calls).** For the
+matchers of nclient4 and of nclient6 (nil matcher included). -/
+theorem C13_call_timed (T n : Int) (H : Int) (hT : 0 < T) :
+    (∀ (mtch : Matcher) (arr : List (Int × Pkt4)), Ordered arr → InBudget T n arr →
+      timedCall T n mtch arr H = sendAndRead (streamOf arr) mtch) ∧
+    (∀ (mtch : Matcher6) (arr : List (Int × V6.Msg6)), Ordered arr → InBudget T n arr →
+      timedCall T n (matcher6 mtch) arr H = sendAndRead6 (streamOf arr) mtch) := by
+  refine ⟨fun mtch arr ho hb => timedCall_eq_find hT mtch arr H ho hb, fun mtch arr ho hb => ?_⟩
+  rw [timedCall_eq_find hT _ arr H ho hb]
+  cases mtch with
+  | none => simp [matcher6, sendAndRead6, List.head?_eq_getElem?]; cases streamOf arr <;> simp
+  | some f => rfl
+
+/-- **C13 (accepted during try `k`: transmissions).** `C12_stop` composed in: the
+accepted packet applied at quiescence at instant `t` — the machine finds the
+try `k` with `T·(2^k − 1) ≤ t < T·(2^(k+1) − 1)`, has transmitted exactly `k + 1`
+times and nothing follows, whatever is observed later. -/
+theorem C13_call_transmissions {α : Type} (T n : Int) (m : α → Bool) (fl : Nat → Bool) (pre post : List (Int × α))
+    (t : Int) (p : α) (rest : List Obs) (H : Int) (hT : 0 < T) (ho : Ordered (pre ++ (t, p) :: post))
+    (hpre : ∀ a ∈ pre, m a.2 = false) (hp : m p = true) (hfl : fl pre.length = true)
+    (hb : n < 0 ∨ t < callBudget T n) :
+    ∃ k : Nat, T * (2 ^ k - 1) ≤ t ∧ t < T * (2 ^ (k + 1) - 1) ∧ (n < 0 ∨ (k : Int) < n) ∧
+      runObs T n (obsOf m fl (pre ++ (t, p) :: post) ++ rest) H =
+        ⟨(List.range (k + 1)).map (fun j => T * (2 ^ j - 1)), some (t, .resp pre.length)⟩ :=
+  refines_some_full hT m fl pre post t p ho hpre hp hfl rest H hb
+
+/-- **C13 (cancelled context / Close).** The caller observes its context's end
+(`k = ctx`) or the client's Close (`k = closed`) at instant `c`, strictly before
+the budget, after the part `pre` of the routed stream: the packet returned is
+`find?` on `pre` ALONE (the packets `post` that arrive later are never looked
+at); when that is `none` the call returns at `c` with the context's error /
+the no-response error. -/
+theorem C13_call_cancelled {α : Type} (T n : Int) (m : α → Bool) (fl : Nat → Bool) (pre post : List (Int × α))
+    (c : Int) (k : Kind) (tag : Nat) (after : Bool) (H : Int) (hT : 0 < T) (hk : k = .ctx ∨ k = .closed)
+    (ho : Ordered pre) (hc : ∀ a ∈ pre, a.1 ≤ c) (h0 : 0 ≤ c) (hb : n < 0 ∨ c < callBudget T n) :
+    answer (pre ++ post)
+      (runObs T n (obsOf m fl pre ++ ⟨c, k, tag, after⟩ :: obsFrom m fl pre.length post) H).ret =
+      (streamOf pre).find? m ∧
+    ((streamOf pre).find? m = none →
+      (runObs T n (obsOf m fl pre ++ ⟨c, k, tag, after⟩ :: obsFrom m fl pre.length post) H).ret =
+        some (c, stopOutcome k)) := by
+  refine ⟨answer_refines_stop hT m fl pre post c k hk tag after H ho hc h0 hb, fun hf => ?_⟩
+  have := refines_stop hT m fl pre c k hk tag after (obsFrom m fl pre.length post) H ho hc h0 hb
+  rw [hf] at this
+  exact this
+
+/-- **C13 (what arrives on or after the budget is not part of the call).**
+`n ≥ 0`; `late` arrives at or after `T·(2^n − 1)` (applied at quiescence): the
+result is `find?` on the arrivals strictly before the budget — a late packet
+the matcher would accept is never returned. -/
+theorem C13_call_late_ignored {α : Type} (T n : Int) (m : α → Bool) (live late : List (Int × α)) (H : Int)
+    (hT : 0 < T) (hn : 0 ≤ n) (ho : Ordered live) (hb : ∀ a ∈ live, a.1 < callBudget T n)
+    (hlate : ∀ a ∈ late, callBudget T n ≤ a.1) (hH : callBudget T n ≤ H) :
+    answer (live ++ late) (runObs T n (obsOf m quiescent (live ++ late)) H).ret = (streamOf live).find? m := by
+  have h := sendAndRead_refines_cut hT hn m quiescent live late H ho hb hlate (fun _ _ => rfl)
+  cases hf : (streamOf live).find? m with
+  | some p =>
+    rw [hf] at h
+    obtain ⟨i, t, hi, hr⟩ := h
+    rw [hr]
+    have hlt : i < live.length := (List.getElem?_eq_some_iff.1 hi).1
+    simp [answer, List.getElem?_append_left hlt, hi]
+  | none =>
+    rw [hf] at h
+    rw [h hH]; rfl
+
+/-- **C13 (datagrams the caller never sees do not matter).** `obs`: ANY
+observation sequence in time order which, once the `irr` observations
+(datagrams of other transactions, undecodable ones, ones dropped by the
+filters or lost between two tries: any number, any instants) are deleted, is
+the observation sequence of the routed stream: same answer. -/
+theorem C13_call_unseen_ignored {α : Type} (T n : Int) (m : α → Bool) (fl : Nat → Bool) (arr : List (Int × α))
+    (obs : List Obs) (H : Int) (hT : 0 < T) (ho : OrderedObs obs)
+    (hobs : obs.filter (fun o => o.kind != .irr) = obsOf m fl arr) (hb : InBudget T n arr) :
+    answer arr (runObs T n obs H).ret = (streamOf arr).find? m := by
+  have h := refines_with_irrelevant hT m fl arr obs H ho hobs hb
+  cases hf : (streamOf arr).find? m with
+  | some p =>
+    rw [hf] at h
+    obtain ⟨i, t, hi, hr⟩ := h
+    rw [hr]; simp [answer, hi]
+  | none =>
+    rw [hf] at h
+    rcases quiet_ret (n := n) hT obs H h with hr | ⟨t, hr⟩ <;> rw [hr] <;> rfl
+
+/-! ### the exchanges on the timed machine -/
+
+/-- **C13 (every exchange of the lease model, run on the timed machine, is the
+exchange over the abstract call).** Each call of an exchange gets its routed
+stream with instants counted from the start of that call; all of them in time
+order and within the budget.  Hence every `C13_*` theorem above about
+`discoverOffer`, `requestFromOffer`, `request`, `renew`, `inform`, `call6`
+(`solicit`, `request6`) holds verbatim of the timed versions. -/
+theorem C13_exchanges_timed (T n : Int) (H : Int) (hT : 0 < T) :
+    (∀ xid hw user (a : List (Int × Pkt4)), Ordered a → InBudget T n a →
+      discoverOfferTimed T n xid hw user a H = discoverOffer xid hw user (streamOf a)) ∧
+    (∀ xid offer user (a : List (Int × Pkt4)), Ordered a → InBudget T n a →
+      requestFromOfferTimed T n xid offer user a H = requestFromOffer xid offer user (streamOf a)) ∧
+    (∀ xid xid2 hw user (a1 a2 : List (Int × Pkt4)), Ordered a1 → InBudget T n a1 → Ordered a2 → InBudget T n a2 →
+      requestTimed T n xid xid2 hw user a1 a2 H = request xid xid2 hw user (streamOf a1) (streamOf a2)) ∧
+    (∀ xid l user (a : List (Int × Pkt4)), Ordered a → InBudget T n a →
+      renewTimed T n xid l user a H = renew xid l user (streamOf a)) ∧
+    (∀ xid hw localIP user (a : List (Int × Pkt4)), Ordered a → InBudget T n a →
+      informTimed T n xid hw localIP user a H = inform xid hw localIP user (streamOf a)) ∧
+    (∀ built (a : List (Int × V6.Msg6)) mtch, Ordered a → InBudget T n a →
+      call6Timed T n built a mtch H = call6 built (streamOf a) mtch) := by
+  have h4 := (C13_call_timed T n H hT).1
+  have h6 := (C13_call_timed T n H hT).2
+  refine ⟨fun xid hw user a ho hb => ?_, fun xid offer user a ho hb => ?_,
+    fun xid xid2 hw user a1 a2 ho1 hb1 ho2 hb2 => ?_, fun xid l user a ho hb => ?_,
+    fun xid hw localIP user a ho hb => ?_, fun built a mtch ho hb => ?_⟩
+  · simp only [discoverOfferTimed, discoverOffer, h4 _ a ho hb]
+  · simp only [requestFromOfferTimed, requestFromOffer, h4 _ a ho hb]
+  · simp only [requestTimed, request, discoverOfferTimed, discoverOffer, requestFromOfferTimed, requestFromOffer,
+      h4 _ a1 ho1 hb1, h4 _ a2 ho2 hb2]
+    generalize sendAndRead (streamOf a1) offerMatcher = x
+    cases x <;> rfl
+  · simp only [renewTimed, renew, h4 _ a ho hb]
+  · simp only [informTimed, inform, h4 _ a ho hb]
+  · cases built <;> simp only [call6Timed, call6, h6 _ a ho hb]
+    generalize sendAndRead6 (streamOf a) mtch = x
+    cases x <;> rfl
+
+/-- **C13 (DORA on the timed machine).** `Request` with client timeout `T` and
+`n` tries.  The DISCOVER call's routed stream `pre1 ++ (t1, offer) :: post1`:
+`offer` is the first packet of type OFFER; the REQUEST call's routed stream
+`pre2 ++ (t2, r) :: post2` (instants from the start of the second call): `r` is
+the first packet that `Completes offer` (ACK/NAK from the offer's server); both
+in time order, `t1`, `t2` strictly before the budget.  Then: the DISCOVER call
+returns at `t1` with packet number `|pre1|`, the REQUEST call at `t2` with packet
+number `|pre2|`, two datagrams are handed to `SendAndRead` — the DISCOVER and the
+REQUEST built from THAT offer — and the result is the lease `(offer, r)` when `r`
+is an ACK, the NAK error `(offer, r)` when it is a NAK. -/
+theorem C13_request_timed (T n : Int) (xid xid2 hw : Bytes) (user : List Modifier)
+    (pre1 post1 pre2 post2 : List (Int × Pkt4)) (t1 t2 : Int) (offer r : Pkt4) (H : Int) (hT : 0 < T)
+    (ho1 : Ordered (pre1 ++ (t1, offer) :: post1)) (ho2 : Ordered (pre2 ++ (t2, r) :: post2))
+    (hb1 : n < 0 ∨ t1 < callBudget T n) (hb2 : n < 0 ∨ t2 < callBudget T n)
+    (hoffer : messageType offer = mtOffer) (hpre1 : ∀ a ∈ pre1, messageType a.2 ≠ mtOffer)
+    (hr : Completes offer r) (hpre2 : ∀ a ∈ pre2, ¬ Completes offer a.2) :
+    (runObs T n (obsOf offerMatcher quiescent (pre1 ++ (t1, offer) :: post1)) H).ret = some (t1, .resp pre1.length) ∧
+    (runObs T n (obsOf (ackNakMatcher offer) quiescent (pre2 ++ (t2, r) :: post2)) H).ret =
+      some (t2, .resp pre2.length) ∧
+    (requestTimed T n xid xid2 hw user (pre1 ++ (t1, offer) :: post1) (pre2 ++ (t2, r) :: post2) H).sent =
+      [discoverPkt xid hw user, requestPkt xid2 offer user] ∧
+    (messageType r = mtAck →
+      (requestTimed T n xid xid2 hw user (pre1 ++ (t1, offer) :: post1) (pre2 ++ (t2, r) :: post2) H).res =
+        .lease offer r) ∧
+    (messageType r = mtNak →
+      (requestTimed T n xid xid2 hw user (pre1 ++ (t1, offer) :: post1) (pre2 ++ (t2, r) :: post2) H).res =
+        .errNak offer r) := by
+  have hm1 : ∀ a ∈ pre1, offerMatcher a.2 = false := fun a ha => by
+    rw [← Bool.not_eq_true, offerMatcher_iff]; exact hpre1 a ha
+  have hm2 : ∀ a ∈ pre2, ackNakMatcher offer a.2 = false := fun a ha => by
+    rw [← Bool.not_eq_true, C13_matcher]; exact hpre2 a ha
+  have ha1 : offerMatcher offer = true := (offerMatcher_iff offer).2 hoffer
+  have ha2 : ackNakMatcher offer r = true := (C13_matcher offer r).2 hr
+  obtain ⟨_, _, _, _, hrun1⟩ := refines_some_full (n := n) hT offerMatcher quiescent pre1 post1 t1 offer ho1 hm1 ha1 rfl
+    [] H hb1
+  obtain ⟨_, _, _, _, hrun2⟩ := refines_some_full (n := n) hT (ackNakMatcher offer) quiescent pre2 post2 t2 r ho2 hm2
+    ha2 rfl [] H hb2
+  rw [List.append_nil] at hrun1 hrun2
+  have hc1 : timedCall T n offerMatcher (pre1 ++ (t1, offer) :: post1) H = some offer := by
+    simp [timedCall, hrun1, answer]
+  have hc2 : timedCall T n (ackNakMatcher offer) (pre2 ++ (t2, r) :: post2) H = some r := by
+    simp [timedCall, hrun2, answer]
+  refine ⟨by rw [hrun1], by rw [hrun2], ?_, fun ht => ?_, fun ht => ?_⟩
+  · simp [requestTimed, discoverOfferTimed, requestFromOfferTimed, hc1]
+  · simp only [requestTimed, discoverOfferTimed, requestFromOfferTimed, hc1, hc2]
+    exact (completion_lease_iff _ _ _ _).2 ⟨rfl, rfl, by rw [ht]; decide⟩
+  · simp only [requestTimed, discoverOfferTimed, requestFromOfferTimed, hc1, hc2]
+    exact (completion_nak_iff _ _ _ _).2 ⟨rfl, rfl, ht⟩
+
+/-- … and when no OFFER is routed to the DISCOVER call before its budget
+(`n ≥ 0`, horizon past the budget) the timed DISCOVER call transmits `n` times,
+fails with the no-response error at `T·(2^n − 1)`, only the DISCOVER is handed to
+`SendAndRead` and `Request` fails with the no-response error. -/
+theorem C13_request_timed_no_offer (T n : Int) (xid xid2 hw : Bytes) (user : List Modifier)
+    (a1 a2 : List (Int × Pkt4)) (H : Int) (hT : 0 < T) (hn : 0 ≤ n) (hH : callBudget T n ≤ H)
+    (hno : ∀ a ∈ a1, messageType a.2 ≠ mtOffer) :
+    runObs T n (obsOf offerMatcher quiescent a1) H =
+      ⟨(List.range n.toNat).map (fun k => T * (2 ^ k - 1)), some (callBudget T n, .noResp)⟩ ∧
+    (requestTimed T n xid xid2 hw user a1 a2 H).sent = [discoverPkt xid hw user] ∧
+    (requestTimed T n xid xid2 hw user a1 a2 H).res = .errNoResponse := by
+  have hf : (streamOf a1).find? offerMatcher = none := by
+    rw [List.find?_eq_none]
+    intro q hq
+    obtain ⟨a, ha, rfl⟩ := List.mem_map.1 hq
+    rw [offerMatcher_iff]
+    exact hno a ha
+  have hrun := (refines_none (n := n) hT offerMatcher quiescent a1 hf H).1 hn hH
+  have hc : timedCall T n offerMatcher a1 H = none := by simp [timedCall, hrun, answer]
+  exact ⟨hrun, by simp [requestTimed, discoverOfferTimed, hc], by simp [requestTimed, discoverOfferTimed, hc]⟩
+
+/-! ### the script-level model (`runCall`, the function whose output the
+client4/client6 correspondence streams compare with the real clients) -/
+
+/-- **C13 (script level, quiescent).** The script that injects the routed
+stream (in time order), every datagram applied at quiescence — on a deadline or
+not — allows EXACTLY ONE result: the timed machine's on the stream's observation
+sequence, i.e. (by `C13_call_refines_timed`) the abstract call's answer.  The
+same holds whatever the sync flags when no datagram arrives exactly on a
+retransmission deadline `T·(2^(k+1) − 1)`. -/
+theorem C13_call_script {α : Type} (T n : Int) (m : α → Bool) (arr : List (Int × α)) (H : Int) (hT : 0 < T)
+    (ho : Ordered arr) :
+    runCall T n (scriptOf m arr) H = [runObs T n (obsOf m quiescent arr) H] ∧
+    (∀ sy : Nat → Bool, (∀ a ∈ arr, ∀ k : Nat, a.1 ≠ T * (2 ^ (k + 1) - 1)) →
+      runCall T n (scriptFrom m sy 0 arr) H = [runObs T n (obsOf m quiescent arr) H]) :=
+  ⟨runCall_scriptOf hT m arr H ho, fun sy hnd => runCall_scriptFrom_no_coincidence hT m sy arr H ho hnd⟩
+
+/-- **C13 (script level, racing: what is NOT the abstract call, exactly).** ANY
+sync flags (datagrams racing with per-try deadlines, where the script-level
+model lets a datagram be lost to the registration being torn down, or be seen by
+the old or the new try).  For EVERY result `r` the model allows:
+(1) if `r` is a response it is a packet of the stream that the matcher accepts,
+returned at its arrival instant, and every accepted packet BEFORE it arrived
+exactly on a retransmission deadline — so `r` is `find?` of the stream with
+some deadline-coincident packets deleted;
+(2) if `r` is not a response, every accepted packet of the stream arrived
+exactly on a retransmission deadline, or at/after the budget.
+In particular a rejected packet is never returned, nothing is invented, and
+without a coincidence the answer is `find?` of the whole stream. -/
+theorem C13_call_script_racing {α : Type} (T n : Int) (m : α → Bool) (sy : Nat → Bool) (arr : List (Int × α))
+    (H : Int) (hT : 0 < T) (ho : Ordered arr) (r : Result) (hr : r ∈ runCall T n (scriptFrom m sy 0 arr) H) :
+    (∀ t i, r.ret = some (t, .resp i) → ∃ p, arr[i]? = some (t, p) ∧ m p = true ∧
+      ∀ j q, j < i → arr[j]? = some q → m q.2 = true → ∃ k : Nat, q.1 = T * (2 ^ (k + 1) - 1)) ∧
+    ((∀ t i, r.ret ≠ some (t, .resp i)) → ∀ a ∈ arr, m a.2 = true →
+      (∃ k : Nat, a.1 = T * (2 ^ (k + 1) - 1)) ∨ (0 ≤ n ∧ callBudget T n ≤ a.1)) :=
+  runCall_stream hT m sy arr H ho r hr
+
+/-- The reading "the script-level model returns `find?` of the routed stream"
+for EVERY script, racing ones included. -/
+def C13_call_script_full : Prop :=
+  ∀ (T n : Int) (m : Nat → Bool) (sy : Nat → Bool) (arr : List (Int × Nat)) (H : Int), 0 < T → Ordered arr →
+    InBudget T n arr → ∀ r ∈ runCall T n (scriptFrom m sy 0 arr) H, answer arr r.ret = (streamOf arr).find? m
+
+/-- False of the model (which is deliberately a superset of the Go runtime's
+behaviour there): an acceptable datagram injected, without waiting for
+quiescence, at the very instant of the first deadline may be delivered to the
+registration being torn down and lost; the call then returns the NEXT acceptable
+packet (here: packet number 1 instead of number 0). -/
+theorem C13_call_script_counterexample : ¬ C13_call_script_full := by
+  intro h
+  have := h 1000 3 (fun p => p == 7 || p == 8) (fun _ => false) [(1000, 7), (1500, 8)] 10000 (by decide)
+    ⟨by decide, by decide⟩ (fun _ => by decide) ⟨[0, 1000], some (1500, .resp 1)⟩ (by decide)
+  revert this
+  decide
+
+/-! Non-vacuity of the refinement: concrete timed runs (kernel-evaluated). -/
+
+/-- packets are numbers, the matcher accepts 7; T = 1000, 3 tries; a rejected 3
+at 400, a rejected 5 exactly ON the first deadline and racing with it, the
+accepted 7 at 2500, another 7 later: returned at 2500, packet number 2, after two
+transmissions; `find?` gives the same packet -/
+example : runObs 1000 3 (obsOf (· == 7) (fun i => i != 1) [(400, 3), (1000, 5), (2500, 7), (2600, 7)]) 10000 =
+      ⟨[0, 1000], some (2500, .resp 2)⟩ ∧
+    answer [(400, 3), (1000, 5), (2500, 7), (2600, 7)] (some (2500, .resp 2)) = some 7 ∧
+    (streamOf [((400 : Int), 3), (1000, 5), (2500, 7), (2600, 7)]).find? (· == 7) = some 7 := by decide
+
+/-- nothing accepted: three transmissions, the no-response error at the budget 7000 -/
+example : runObs 1000 3 (obsOf (· == 7) quiescent [(400, 3), (1000, 5), (6999, 9)]) 10000 =
+      ⟨[0, 1000, 3000], some (callBudget 1000 3, .noResp)⟩ ∧ callBudget 1000 3 = 7000 ∧
+    (streamOf [((400 : Int), 3), (1000, 5), (6999, 9)]).find? (· == 7) = none := by decide
+
+/-- the hypotheses of `C13_call_refines_timed` hold of the first stream -/
+example : Ordered [((400 : Int), 3), (1000, 5), (2500, 7), (2600, 7)] ∧
+    InBudget 1000 3 [((400 : Int), 3), (1000, 5), (2500, 7), (2600, 7)] := by
+  refine ⟨⟨by decide, by decide⟩, fun _ => by decide⟩
+
+/-- context cancelled at 2000, between the rejected packets and the acceptable
+one: the context's error at 2000; the acceptable packet at 2500 is never seen -/
+example : (runObs 1000 3 (obsOf (· == 7) quiescent [(400, 3), (1000, 5)] ++
+      ⟨2000, .ctx, 0, true⟩ :: obsFrom (· == 7) quiescent 2 [(2500, 7)]) 10000).ret = some (2000, .ctxErr) := by
+  decide
+
+/-- an acceptable packet arriving exactly at the budget, applied at quiescence: not returned -/
+example : (runObs 1000 3 (obsOf (· == 7) quiescent [(400, 3), (7000, 7)]) 10000).ret = some (7000, .noResp) := by
+  decide
+
+/-- the script-level model on the first stream, all at quiescence: one result -/
+example : runCall 1000 3 (scriptOf (· == 7) [(400, 3), (1000, 5), (2500, 7), (2600, 7)]) 10000 =
+    [⟨[0, 1000], some (2500, .resp 2)⟩] := by decide
+
+/-- … racing: an acceptable packet exactly on the first deadline may be seen by
+the new try (two transmissions), be lost (then the next acceptable packet,
+number 1, is returned), or be seen by the old try (one transmission): three results, all covered by
+`C13_call_script_racing` -/
+example : runCall 1000 3 (scriptFrom (fun p => p == 7 || p == 8) (fun _ => false) 0 [(1000, 7), (1500, 8)]) 10000 =
+    [⟨[0, 1000], some (1000, .resp 0)⟩, ⟨[0, 1000], some (1500, .resp 1)⟩, ⟨[0], some (1000, .resp 0)⟩] := by decide
+
+/-- DORA on the timed machine with the hostile stream of the example above:
+OFFER at 120 ns after a wrong-type packet, then (second call) a wrong-server
+ACK, a duplicate OFFER, and the right ACK at 1300 ns — during the second try -/
+example : (requestTimed 1000 3 [0, 0, 0, 0] [0, 0, 0, 0] [2, 0, 0, 0, 0, 1] []
+      ([(50, ackFrom [10, 0, 0, 1])] ++ (120, exOffer) :: [(130, exOffer)])
+      ([(10, ackFrom [10, 0, 0, 2]), (20, exOffer)] ++ (1300, ackFrom [10, 0, 0, 1]) :: [(1400, nakFrom [10, 0, 0, 1])])
+      10000).res = .lease exOffer (ackFrom [10, 0, 0, 1]) :=
+  (C13_request_timed 1000 3 _ _ _ _ _ _ _ _ 120 1300 exOffer (ackFrom [10, 0, 0, 1]) 10000 (by decide)
+    ⟨by decide, by decide⟩ ⟨by decide, by decide⟩ (Or.inr (by decide)) (Or.inr (by decide))
+    (by decide) (by decide) (by decide) (by decide)).2.2.2.1 (by decide)
+
+end Refinement
+
 end Dhcp.Client.Lease
+
+/-
+  The interleaving model's side of the same statement.
+-/
+namespace Dhcp.Client.LTS
+
+/-- **C13 (in the interleaving model a returned packet is `find?` of what was
+routed).** `C10_first` restated with `List.find?`: in every reachable state of
+the labelled transition system (any number of callers, any interleaving with
+the receive loop, Close, timers, contexts), a caller that has returned a packet
+returned exactly `find?` — with its matcher — of the list of packets the
+receive loop routed to the registration of the try that returned; in the form
+of the abstract call: on the datagrams, `(routed.map (·.d)).find? accepted`. -/
+theorem C13_call_is_find (cfg : Cfg) (hf : cfg.cancelChecksOwner = true) (s : State) (hr : Reachable cfg s)
+    (i : Nat) (p : Pkt) (hret : (getC s i).pc = .returned (.ok (some p))) :
+    (getR s (getC s i).lastReg).routed.find? (fun q : Pkt => accepted (cfg.caller i) q.d) = some p ∧
+    ((getR s (getC s i).lastReg).routed.map (·.d)).find? (accepted (cfg.caller i)) = some p.d := by
+  obtain ⟨pre, post, heq, hacc, hpre⟩ := C10_first cfg hf s hr i p hret
+  have h1 : (getR s (getC s i).lastReg).routed.find? (fun q : Pkt => accepted (cfg.caller i) q.d) = some p := by
+    rw [heq]
+    exact List.find?_eq_some_iff_append.2 ⟨by simpa using hacc, pre, post, rfl, fun q hq => by simpa using hpre q hq⟩
+  refine ⟨h1, ?_⟩
+  rw [List.find?_map]
+  show Option.map _ (List.find? (fun q : Pkt => accepted (cfg.caller i) q.d) _) = _
+  rw [h1]; rfl
+
+/-- non-vacuity: the reachable state of `C10.ownTrace` (a rejected datagram, a
+foreign one, an undecodable one, then the accepted one) -/
+example : ∃ s, Reachable cfgTag s ∧ (getC s 0).pc = .returned (.ok (some ⟨3, ⟨3, true, 1⟩⟩)) ∧
+    (getR s (getC s 0).lastReg).routed = [⟨0, ⟨3, true, 0⟩⟩, ⟨3, ⟨3, true, 1⟩⟩] :=
+  ⟨_, ⟨ownTrace, rfl⟩, by decide, by decide⟩
+
+end Dhcp.Client.LTS
